@@ -7,6 +7,8 @@ import TsVerif.C17.MergeTerm
 import TsVerif.C17.IntersectLemmas
 import TsVerif.C17.Locals
 import TsVerif.C17.FullLemmas
+import TsVerif.C17.StackThm
+import TsVerif.C17.SortOrder
 /-!
 # C17 — Highlight events are well nested and reproduce the source text exactly
 
@@ -28,6 +30,8 @@ Clause map (models: `TsVerif/C17/Model.lean`, `Merge.lean`; judges: `Judge.lean`
 | renderer does not panic on a well-formed stream | `render_total_of_wellFormed` | proved |
 | Source spans contiguous/increasing/covering, Start/End nested and closed (END-TO-END model: layers + locals + the injection step computed by the model, `Full.lean`) | `merge_full_wellformed` (terminates and is well formed for every layer/match table with offsets inside the source and injections creating later layers; both conditions checked on every real case; tied by exact reproduction of real streams with locals AND injections, combined, self/parent) | proved for the model, judged on every real stream |
 | Source spans contiguous/increasing/covering, Start/End nested and closed | `merge_wellformed_partial` (model of the merge of ONE layer: `highlight_end_stack`, `emit_event`, `next_event`; tied by correspondence); `merge_multi_wellformed` (several layers: `sort_key`, `sort_layers`, `insert_layer`, `last_highlight_range`; no locals branch; the run provably finishes when injections refer to later layers of the table — `refsUp`, checked on every real case), `merge_multi_wellformed_partial` (any layer table, if the run finishes); both models tied by correspondence | proved for the models, judged on every real stream |
+| each End closes the highlight of the capture that ends there (scope stack = captures containing the byte) | `merge_stack_spec_partial` (single-layer merge, captures in nesting order: over every Source span the stack of open highlights IS the list of highlights of the containing captures, innermost first); several layers: judged on every applicable real stream (`judgeStacks`), theorem OPEN | proved for one layer, judged |
+| events in offset order across layers (ends before starts at one offset, deeper layers first) | `sort_key_order` (strict total order), `sort_layers_restores_order`, `insert_layer_keeps_order`, `merge_layers_stay_ordered_partial` (every iteration leaves the layer list ordered by `sort_key`, so the head has the minimal key) — hypothesis: the INITIAL list is ordered; FALSE for the unchanged `Highlighter::highlight` with two combined-injection layers (`initial_layers_unordered_witness`; fix `fixes/C17-initial-layer-order.diff`) | proved / witness |
 | injected spans inside the content | `intersect_ranges_spec`, `injected_content_inside` (port of `intersect_ranges`: every content range is non-empty, inside a range of the parent layer, inside a content node and — unless include-children — clear of the node's children); that a layer's SPANS start inside its included ranges is a property of parsing with included ranges (C13), judged on every real stream by `judgeInjected` | ranges proved, spans judged |
 | local reference like definition | `local_ref_like_def`, `findDef_newest` (port of the locals branch for one layer, `Locals.lean`, tied by correspondence on layers with a locals query): a reference whose enclosing scopes up to the defining one all inherit and do not define the name takes the highlight stored for the newest admissible definition; also judged on every real stream (`judgeLocals`) | proved for the one-layer model, judged |
 
@@ -237,6 +241,105 @@ example : capsIn 7 [⟨0, 5, some 1⟩, ⟨0, 2, some 2⟩, ⟨2, 2, some 4⟩, 
 /-- The hypothesis cannot be dropped: a capture that ends beyond the source yields a `Source`
 event past the end. -/
 example : judgeEvents 3 (mergeLayer 3 [⟨1, 9, some 0⟩]) = false := by decide
+
+/-! ## Scope stacks -/
+
+/-- The `StackSpec` clause as a theorem about the single-layer merge: for captures inside the source,
+in start order, any two nested or disjoint and listed in nesting order (`capsOk` — what the judge's
+applicability conditions say for one layer), over EVERY `Source` span of `mergeLayer` the stack of
+open highlights (innermost first; `Start` pushes, `End` pops) is exactly the list of the highlights
+of the captures whose range contains the span, latest capture first.  In particular every `End`
+closes the highlight of the capture that ends there.  `_partial`: one layer (several layers:
+judged, theorem OPEN); the hypothesis `capsOk` cannot be dropped (witnesses below). -/
+theorem merge_stack_spec_partial (n : Nat) (caps : List Cap) (h : capsOk n caps = true) :
+    ∀ t ∈ observed (mergeLayer n caps), t.1 < t.2.1 ∧ t.2.2 = expectedStack caps t.1 t.2.1 := by
+  intro t ht
+  have hi : SInvL n 0 [] caps :=
+    { sorted := by simp
+      openLe := fun x hx => by simp at hx
+      capsok := h
+      restGe := fun c _ => Nat.zero_le _
+      nest := fun x hx => by simp at hx }
+  have := mergeGo_stack n (2 * caps.length + 1) 0 [] caps (by simp) hi t (by simpa [observed, mergeLayer] using ht)
+  obtain ⟨_, g2, g3⟩ := this
+  exact ⟨g2, by simpa [EState] using g3⟩
+
+/-- non-vacuity: nested, adjacent, same-range, zero-width and unrecognised captures -/
+example : capsOk 9 [⟨0, 6, some 1⟩, ⟨0, 2, some 2⟩, ⟨2, 4, some 3⟩, ⟨2, 4, some 4⟩, ⟨4, 4, some 5⟩, ⟨4, 6, none⟩, ⟨7, 8, some 6⟩] = true ∧
+    observed (mergeLayer 9 [⟨0, 6, some 1⟩, ⟨0, 2, some 2⟩, ⟨2, 4, some 3⟩, ⟨2, 4, some 4⟩, ⟨4, 4, some 5⟩, ⟨4, 6, none⟩, ⟨7, 8, some 6⟩]) =
+      [(0, 2, [2, 1]), (2, 4, [4, 3, 1]), (4, 6, [1]), (6, 7, []), (7, 8, [6]), (8, 9, [])] := by decide
+
+/-- `capsOk` cannot be dropped (1): two captures starting together, the INNER one listed first (a
+start tie against the nesting order): the end stack is then `[5, 2]`, the inner highlight is only
+closed at 5, and the one `Source` span `[0,5)` carries `[2, 1]` although only capture 2 contains it. -/
+example : capsOk 5 [⟨0, 2, some 1⟩, ⟨0, 5, some 2⟩] = false ∧
+    observed (mergeLayer 5 [⟨0, 2, some 1⟩, ⟨0, 5, some 2⟩]) = [(0, 5, [2, 1])] ∧
+    expectedStack [⟨0, 2, some 1⟩, ⟨0, 5, some 2⟩] 0 5 = [2] := by decide
+
+/-- `capsOk` cannot be dropped (2): partially overlapping captures. -/
+example : capsOk 5 [⟨0, 3, some 1⟩, ⟨2, 5, some 2⟩] = false ∧
+    observed (mergeLayer 5 [⟨0, 3, some 1⟩, ⟨2, 5, some 2⟩]) = [(0, 2, [1]), (2, 5, [2, 1])] ∧
+    expectedStack [⟨0, 3, some 1⟩, ⟨2, 5, some 2⟩] 3 5 = [2] := by decide
+
+/-! ## Order of the layers -/
+
+/-- `sort_key`'s order — offset, then ends before starts, then deeper layers first — is a strict total
+order. -/
+theorem sort_key_order (a b c : Key) :
+    (keyLt a b = true → keyLt b c = true → keyLt a c = true) ∧ (keyLt a b = true → keyLt b a = false) ∧
+    (keyLt a b = true ∨ a = b ∨ keyLt b a = true) :=
+  ⟨keyLt_trans, keyLt_asymm, keyLt_total a b⟩
+
+/-- `sort_layers` restores the order when only the first layer is out of place: if `layers[1..]` is
+ordered by `sort_key`, the whole list is ordered afterwards, hence its first layer has the minimal
+key (the earliest boundary; an end before a start at the same offset; the deeper layer first). -/
+theorem sort_layers_restores_order (l0 : MLayer) (rest : List MLayer) (hs : Sorted rest) :
+    Sorted (sortLayers (l0 :: rest)) := sortLayers_sorted l0 rest hs
+
+/-- `insert_layer` keeps `layers[1..]` ordered. -/
+theorem insert_layer_keeps_order (l0 : MLayer) (rest : List MLayer) (nl : MLayer) (hs : Sorted rest) :
+    ∃ rest', insertLayer (l0 :: rest) nl = l0 :: rest' ∧ Sorted rest' := insertLayer_sorted l0 rest nl hs
+
+/-- Every iteration of `HighlightIter::next` (model `stepM`: pop / start / skip / injection with its
+`insert_layer`s, each followed by `sort_layers`) leaves the layer list ordered by `sort_key` — IF it
+was ordered before.  `_partial`: the hypothesis fails initially for the unchanged
+`Highlighter::highlight`, see the witness. -/
+theorem merge_layers_stay_ordered_partial (defs : List LayerDef) (n : Nat) (st st' : MSt) (evs : List Ev)
+    (hs : Sorted st.layers) (h : stepM defs n st = .more evs st') : Sorted st'.layers :=
+  stepM_keeps_sorted defs n st st' evs hs h
+
+/-- non-vacuity: an ordered list of three layers (end at 4 before start at 4, deeper first) -/
+example : Sorted [⟨2, [], [4]⟩, ⟨1, [], [4]⟩, ⟨1, [⟨4, 6, 1, .hl (some 1)⟩], []⟩] := by
+  refine ⟨⟨(4, false, 2), rfl, ?_⟩, ⟨(4, false, 1), rfl, ?_⟩, ⟨(4, true, 1), rfl, ?_⟩, trivial⟩
+  · intro y hy
+    simp only [List.mem_cons, List.not_mem_nil, or_false] at hy
+    rcases hy with rfl | rfl
+    · exact ⟨(4, false, 1), rfl, by decide⟩
+    · exact ⟨(4, true, 1), rfl, by decide⟩
+  · intro y hy
+    simp only [List.mem_cons, List.not_mem_nil, or_false] at hy
+    subst hy
+    exact ⟨(4, true, 1), rfl, by decide⟩
+  · intro y hy; simp at hy
+
+/-- Three initial layers as `HighlightIterLayer::new` returns them for a root with TWO combined
+injection patterns: the second combined layer's first capture (4..5) precedes the first one's (9..14). -/
+def unorderedInit : List LayerDef := [
+  ⟨0, [⟨0, 8, 1, .hl (some 1)⟩, ⟨8, 16, 2, .hl (some 2)⟩]⟩,
+  ⟨1, [⟨9, 14, 3, .hl (some 3)⟩]⟩,
+  ⟨1, [⟨4, 5, 4, .hl (some 4)⟩]⟩]
+
+/-- GENUINE DEFECT of the unchanged tree (reproduced on the real code: tmpl `<%= x %> hello a` with the
+patterns of `zoo/tmpl/queries/injections_d.scm`): after the single `sort_layers` of
+`Highlighter::highlight` the keys are `(0,start) (9,start) (4,start)` — not ordered — and highlight 4
+of the capture 4..5 is opened and closed at offset 9: the byte 4..5 is not highlighted, and the span
+lies outside its layer's content.  Fixed by `fixes/C17-initial-layer-order.diff`. -/
+theorem initial_layers_unordered_witness :
+    (sortLayers ([0, 1, 2].filterMap (mkLayer unorderedInit))).map sortKey =
+      [some (0, true, 0), some (9, true, 1), some (4, true, 1)] ∧
+    (mergeLayers unorderedInit [0, 1, 2] 16).1 =
+      [.start 1, .source 0 8, .stop, .start 2, .source 8 9, .start 3, .start 4, .stop, .source 9 14, .stop,
+       .source 14 16, .stop] := by decide
 
 /-! ## Several layers -/
 
